@@ -230,7 +230,9 @@ impl ArrayToBytesCodecTraits for ShardingCodec {
                             chunk_representation.num_elements(),
                         );
                         ArrayBytes::new_fill_value(array_size, chunk_representation.fill_value())
-                    } else if usize::try_from(offset + size).unwrap() > encoded_shard.len() {
+                    } else if offset
+                .checked_add(size)
+                .is_none_or(|end| end > encoded_shard.len() as u64) {
                         return Err(CodecError::Other(
                             "The shard index references out-of-bounds bytes. The chunk may be corrupted."
                                 .to_string(),
@@ -291,7 +293,9 @@ impl ArrayToBytesCodecTraits for ShardingCodec {
                         if offset == u64::MAX && size == u64::MAX {
                             output_view_inner_chunk
                                 .fill(shard_representation.fill_value().as_ne_bytes())?;
-                        } else if usize::try_from(offset + size).unwrap() > encoded_shard.len() {
+                        } else if offset
+                .checked_add(size)
+                .is_none_or(|end| end > encoded_shard.len() as u64) {
                             return Err(CodecError::Other(
                                 "The shard index references out-of-bounds bytes. The chunk may be corrupted."
                                     .to_string(),
@@ -391,7 +395,9 @@ impl ArrayToBytesCodecTraits for ShardingCodec {
             let size = shard_index[chunk_index * 2 + 1];
             if offset == u64::MAX && size == u64::MAX {
                 output_view_inner_chunk.fill(shard_representation.fill_value().as_ne_bytes())?;
-            } else if usize::try_from(offset + size).unwrap() > encoded_shard.len() {
+            } else if offset
+                .checked_add(size)
+                .is_none_or(|end| end > encoded_shard.len() as u64) {
                 return Err(CodecError::Other(
                     "The shard index references out-of-bounds bytes. The chunk may be corrupted."
                         .to_string(),
